@@ -253,6 +253,7 @@ func runC19(r *Run) {
 	checkCreateSuspicious(r)
 	checkCleanTracker(r)
 	checkNoDowngrade(r)
+	checkOptionsValidated(r, "C19.options", "ValidateEvidence", 3)
 	r.Floor("C19.", 30)
 }
 
